@@ -306,13 +306,20 @@ def _r6(rep, src, label, full):
             while isinstance(e, (ast.Call, ast.Attribute)):
                 e = e.func if isinstance(e, ast.Call) else e.value
             return isinstance(e, ast.Name) and e.id == 'self'
-        if not any(isinstance(c, ast.Call) and norm(c.func) == 'DB' for c in ast.walk(f.node)) and \
-                not any(isinstance(r_, ast.Return) and isinstance(r_.value, ast.Call) and isinstance(r_.value.func, ast.Attribute)
-                        and rooted_at_self(r_.value.func.value) and ('DB.' + r_.value.func.attr) in m.funcs for r_ in ast.walk(f.node)):
+        strict = any(isinstance(c, ast.Call) and norm(c.func) == 'DB' for c in ast.walk(f.node)) or \
+            any(isinstance(r_, ast.Return) and isinstance(r_.value, ast.Call) and isinstance(r_.value.func, ast.Attribute)
+                and rooted_at_self(r_.value.func.value) and ('DB.' + r_.value.func.attr) in m.funcs for r_ in ast.walk(f.node))
+        # ... or a method that calls another method of the collection and returns a name (res = self.filter_tags(f); ...; return res):
+        # whether it hands out a collection is seen from the interpreted result
+        wide = any(isinstance(c, ast.Call) and isinstance(c.func, ast.Attribute) and rooted_at_self(c.func.value) and ('DB.' + c.func.attr) in m.funcs
+                   for c in ast.walk(f.node)) and any(isinstance(r_, ast.Return) and isinstance(r_.value, ast.Name) for r_ in ast.walk(f.node))
+        if not strict and not wide:
             continue
         mname = q[3:]
         args = [arg_for(p_) for p_ in f.params()[1:]]
         if any(a_ is None for a_ in args):
+            if not strict:
+                continue
             raise AnalysisError('%s: no generic argument for the parameters %s' % (f.site, f.params()[1:]))
         rep.saw_func(f)
         heap, it, me = _world(src)
